@@ -32,6 +32,9 @@ CLAIMED = {
  "C13": ("seqmc", "exhaustive enumeration of block forests, store/get sequences and commit histories on the real Blockchain and Committer against a reference forest",
          "Extends for all block pairs of every forest with <=5 (6 thorough) blocks incl. forks, equal views on different branches and missing ancestors; every store/re-store/get sequence to depth 5 (6) with honest, lying and silent peers whose replies pass through the real RequestBlockQF; every parent-first store order x every commit history of every forest with <=4 (5) blocks through the real Committer: abort events vs. committed chain, commit order = chain order.",
          "Commit targets extend the previous commit (guaranteed by the rulesets, C01/C04); fetch replies enter at the quorum function, not at a socket.", "§4 C13"),
+ "C04": ("seqmc", "exhaustive enumeration of block forests x presentation orders x flows on the three real rulesets against an independent reference of the published rules",
+         "Every forest of <=3 (4 thorough) blocks with parent and QC link each in {genesis, earlier block, missing}, views <=4 (5) increasing along both links, all presentation orders, per-block mode {proposal flow, fetched}, VoteRule view argument {v-1,v,v+1}, AggQC absent/present; plus the two-branch family (main chain + one fork, every fork point and view interleaving, one optional gap) up to 7 (9) blocks. Compared per step: vote verdict, decided block, lock, and the structural clause on every decision.",
+         "Random forests beyond the bound are not sampled (outside this family); QC objects carry the view of the block they name.", "§4 C04"),
 }
 PENDING = {}  # id -> reason (properties not claimed)
 
